@@ -685,7 +685,8 @@ pub fn run_c20w(ctx: &mut Ctx) {
     idx += 1;
     if ctx.mine(idx) { case(ctx, "c04", "5", "1", "single", &format!("POST:/dupe{idx}:e:{}:U;GET:/after:n::n200", enc(b"0123456789"))); }
     // the disk fails while an upload is being saved: a fault of the server (500, connection closed), never the client's (400)
-    for (framing, len) in [("k", 70_000usize), ("u", 70_000), ("e", 9_000), ("k", 4097)] {
+    // (several 64 KiB blocks: the failure then surfaces inside the copy loop; with a short body it surfaces when the file is closed)
+    for (framing, len) in [("k", 400_000usize), ("u", 400_000), ("e", 300_000), ("k", 70_000), ("k", 4097)] {
         idx += 1;
         if ctx.mine(idx) { case(ctx, "c04", "100", "3", "single", &format!("POST:/full{idx}:{framing}:{}:g1000000;GET:/after:n::n200", enc(&vec![b'f'; len]))); }
     }
